@@ -264,7 +264,7 @@ def main():
     from checks import C02
     C02.tune_explore(0 if common.tier() == "quick" else 20)
     explore.explore(rep, "checks.C29", "C29Monitor", n_quick=64, n_thorough=2400,
-                    budget_quick_s=18)
+                    budget_quick_s=25)
     calls = raised = 0
     for p in glob.glob(os.path.join(d, "*.jsonl")):
       for line in open(p):
